@@ -387,8 +387,10 @@ def Resp.trailerMap (r : Resp) : HMap :=
 def Resp.trailerFields (r : Resp) : List Field :=
   encodeHeaderFields r.trailerMap (some r.trailerKeys)
 
-/-- a wildcard value: the server computes it from the clock / by sniffing. -/
-def wild : Str := [42]
+/-- a wildcard value: the server computes it from the clock / by sniffing. NUL cannot occur in a
+header field value (`ValidHeaderFieldValue` rejects control bytes), so it cannot collide with a
+value the handler wrote. -/
+def wild : Str := [0]
 
 /-- the response header block of `writeChunk`/`writeResHeaders.writeFrame`. The values of an
 automatic `content-type` and `date` are `wild`. -/
